@@ -189,6 +189,10 @@ class MessageSigner(object):
         if isinstance(key_or_address, str):
             # they gave us a private key or a public key already loaded.
             key = self._network.parse.address(key_or_address)
+            # only an address that names a public key hash can be the signer's: a script hash
+            # address carrying the same 20 bytes names a script, not this key
+            if key is not None and key.info().get("type") not in ("p2pkh", "p2pkh_wit"):
+                return False
         else:
             key = key_or_address
 
